@@ -124,6 +124,14 @@ class _GraphIO(collections.UserList["_core.Value"]):
         """Get an input/output from the graph."""
         return self.data[i]
 
+    def __delitem__(self, i) -> None:
+        """Remove an input/output (or a slice of them) from the graph."""
+        removed = self.data[i] if isinstance(i, slice) else [self.data[i]]
+        for value in removed:
+            self._maybe_unset_graph(value)
+        super().__delitem__(i)
+        self._check_invariance()
+
     def _unimplemented(self, *_args, **_kwargs):
         """Unimplemented method."""
         raise RuntimeError("Method is not supported")
@@ -133,6 +141,7 @@ class _GraphIO(collections.UserList["_core.Value"]):
     __iadd__ = _unimplemented
     __mul__ = _unimplemented
     __rmul__ = _unimplemented
+    __imul__ = _unimplemented
 
 
 class GraphInputs(_GraphIO):
@@ -284,6 +293,11 @@ class GraphInitializers(collections.UserDict[str, "_core.Value"]):
         # the dictionary is not modified
         self._maybe_unset_graph(value)
         super().__delitem__(key)
+
+    def __ior__(self, other):
+        """Update the initializers in place, keeping the ownership of the values tracked."""
+        self.update(other)
+        return self
 
     def add(self, value: _core.Value) -> None:
         """Add an initializer to the graph."""
